@@ -102,41 +102,26 @@ verdict!(verdict_l29, 29);
 
 // SegwitHrpstring::new on whole strings "el1<version><payload><12 checksum chars>".
 //
-// Running the real polymod through `new` on a symbolic string did not finish in 30 min (the separator position
-// is symbolic for CBMC, so every loop is unwound to the string length for two checksum instantiations).  The
-// clause is therefore split the contract way:
-//   * verdict_l* above:  the REAL validate_checksum::<Ck> on a given `UncheckedHrpstring` == reference PolyMod
-//     over ExpandHRP ++ all its data characters, compared with Ck's target;
-//   * segwit_rec_* below: the REAL SegwitHrpstring::new with validate_checksum replaced by a RECORDING model
-//     (returns an arbitrary verdict, records which `data` slice and which `Ck` it was asked about): `new` asks
-//     exactly once, about ALL data characters (version character first, 12 checksum characters last), with
-//     Ck = Blech32 iff the version character is 'q' (0), and a negative verdict is final.
-struct Rec { calls: usize, ptr: usize, len: usize, target_is_one: bool, cklen: usize, verdict_ok: bool }
-static mut REC: Rec = Rec { calls: 0, ptr: 0, len: 0, target_is_one: false, cklen: 0, verdict_ok: false };
-
-fn validate_checksum_rec<'s, Ck: Checksum>(this: &UncheckedHrpstring<'s>) -> Result<(), ChecksumError>
-where 's: 's // makes 's early-bound so that the generic parameter count matches the method's
-{
-    use bech32::primitives::checksum::PackedFe32;
-    let ok: bool = kani::any();
-    unsafe {
-        REC.calls += 1;
-        REC.ptr = this.data.as_ptr() as usize;
-        REC.len = this.data.len();
-        REC.target_is_one = Ck::TARGET_RESIDUE == <Ck::MidstateRepr as PackedFe32>::ONE;
-        REC.cklen = Ck::CHECKSUM_LENGTH;
-        REC.verdict_ok = ok;
-    }
-    // the real function's length precondition for remove_checksum is part of its contract (verdict_l11)
-    if this.data.len() < Ck::CHECKSUM_LENGTH { return Err(ChecksumError::InvalidChecksumLength); }
-    if ok { Ok(()) } else { Err(ChecksumError::InvalidChecksum) }
+// Running `new` on such a symbolic string with everything real did not finish in 30 min: for CBMC the
+// separator position found by `check_characters` is symbolic (reverse UTF-8 scan over symbolic bytes), so every
+// later loop is unwound to the string length with symbolic slice bounds, for two checksum instantiations.
+// `check_characters` is therefore replaced by its CONTRACT for this string shape — "el1" followed by
+// lower-case bech32-alphabet characters: returns Ok(2), the index of the last '1'.  That contract is what
+// c10_blech32_total.rs::unchecked_new_l* verify on the real function (acceptance IFF BIP-173 shape, and the
+// hrp/data split is at the last '1').  Everything else — `UncheckedHrpstring::new`, `Hrp::parse`, the version
+// switch, the REAL `validate_and_remove_checksum::<Blech32|Blech32m>` with the real engine, `validate_segwit`
+// — runs unmodified and is compared with the reference PolyMod.  (Under `cargo kani playback` the stub is
+// not applied; the real `check_characters` returns the same Ok(2) on these strings.)
+fn check_characters_contract(_s: &str) -> Result<usize, CharError> {
+    unsafe { STUB_USED = true; }
+    Ok(2)
 }
+static mut STUB_USED: bool = false;
 
-macro_rules! segwit_rec {
-    ($name:ident, $n:expr, $total:expr, $unw:literal) => {
+macro_rules! segwit_feed {
+    ($name:ident, $n:expr, $total:expr) => {
         #[kani::proof]
-        #[kani::unwind($unw)]
-        #[kani::stub(UncheckedHrpstring::validate_checksum, validate_checksum_rec)]
+        #[kani::stub(super::check_characters, check_characters_contract)]
         fn $name() {
             const N: usize = $n;           // data characters: version + payload + checksum
             const T: usize = $total;       // N + 3 ("el1")
@@ -144,40 +129,53 @@ macro_rules! segwit_rec {
             let mut text = [0u8; T];
             text[0] = b'e'; text[1] = b'l'; text[2] = b'1';
             let mut i = 0;
-            while i < N { text[3 + i] = chars[i]; i += 1; }
+            while i < N { text[3 + i] = chars[i]; i += 1; } // no '1' among them: index 2 is the last '1'
             let s: &str = match core::str::from_utf8(&text) { Ok(s) => s, Err(_) => { assert!(false); return; } };
+            let want = ref_polymod::<2, N>(b"el", &vals);
             let version = vals[0];
-            let r = SegwitHrpstring::new(s);
-            let (calls, ptr, len, t1, cklen, vok) = unsafe { (REC.calls, REC.ptr, REC.len, REC.target_is_one, REC.cklen, REC.verdict_ok) };
-            let recorder_active = calls > 0;
-            let accepted = r.is_ok();
-            if version > 16 {
-                assert!(matches!(r, Err(SegwitHrpstringError::InvalidWitnessVersion(_))));
-                assert!(calls == 0);
-            } else if recorder_active { // (under `cargo kani playback` stubs are not applied: skip)
-                assert!(calls == 1, "the checksum is validated exactly once");
-                assert!(ptr == text[3..].as_ptr() as usize && len == N, "over ALL data characters: version first, checksum last");
-                assert!(cklen == 12);
-                assert!(t1 == (version == 0), "Blech32 (target 1) iff witness version 0, else Blech32m");
-                if !vok || N < 12 { assert!(matches!(r, Err(SegwitHrpstringError::Checksum(_))), "a failed checksum is final"); }
+            let target = if version == 0 { BLECH32_CONST } else { BLECH32M_CONST };
+            let mut accepted = false;
+            let mut cksum_err = false;
+            match SegwitHrpstring::new(s) {
+                Ok(seg) => {
+                    accepted = true;
+                    // checksum validated over ALL data characters, version included, with the variant of the version
+                    assert!(want == target, "accepted string has the residue required for its witness version");
+                    assert!(version <= 16);
+                    assert!(seg.witness_version.to_u8() == version);
+                    // what is handed on: the characters between version and checksum
+                    assert!(seg.data.len() == N - 13 && seg.data.as_ptr() == text[4..].as_ptr());
+                    assert!(seg.hrp == Hrp::parse_unchecked("el"));
+                }
+                Err(e) => {
+                    cksum_err = matches!(e, SegwitHrpstringError::Checksum(_));
+                    if version > 16 {
+                        assert!(matches!(e, SegwitHrpstringError::InvalidWitnessVersion(_)));
+                    } else if want != target {
+                        assert!(matches!(e, SegwitHrpstringError::Checksum(ChecksumError::InvalidChecksum)));
+                    } else {
+                        // right residue for this version: whatever is wrong, it is not the checksum
+                        assert!(matches!(e, SegwitHrpstringError::Padding(_) | SegwitHrpstringError::WitnessLength(_)));
+                    }
+                    core::mem::forget(e);
+                }
             }
-            if let Ok(ref seg) = r {
-                assert!(version <= 16 && seg.witness_version.to_u8() == version);
-                assert!(seg.data.len() == N - 13 && seg.data.as_ptr() == text[4..].as_ptr()); // stripped only afterwards
-                assert!(seg.hrp == Hrp::parse_unchecked("el"));
-            }
-            kani::cover!(recorder_active);
-            kani::cover!(recorder_active && t1);
-            kani::cover!(recorder_active && !t1 && vok);
+            kani::cover!(unsafe { STUB_USED });
+            kani::cover!(N < 17 || (accepted && version == 1));
             kani::cover!(N < 17 || (accepted && version == 16));
-            kani::cover!(version == 17);
-            core::mem::forget(r);
+            kani::cover!(!accepted && !cksum_err && version == 0);  // blech32 residue on a v0 string, rejected for length
+            kani::cover!(!accepted && !cksum_err && version == 5);  // blech32m residue on a v5 string
+            kani::cover!(cksum_err && version == 0 && want == BLECH32M_CONST); // wrong variant for the version
+            kani::cover!(cksum_err && version == 3 && want == BLECH32_CONST);
         }
     };
 }
-//@ harness: segwit_rec_l13 class=B tier=quick bound="string el1 + 13 lower-case data characters (version + 12 checksum), all contents; validate_checksum replaced by the recording model" props=C17,C06 timeout=900
-//@ clause: SegwitHrpstring::new: version > 16 rejected without checksum; otherwise validate_checksum is asked exactly once, about all data characters (version character included, before it is stripped), with Blech32 iff version 0 else Blech32m, CHECKSUM_LENGTH 12; a negative verdict yields Err(Checksum)
-segwit_rec!(segwit_rec_l13, 13, 16, 19);
-//@ harness: segwit_rec_l17 class=B tier=thorough bound="string el1 + 17 lower-case data characters (version, 4 payload, 12 checksum), all contents; validate_checksum replaced by the recording model" props=C17,C06 timeout=1800
-//@ clause: same, with an acceptable payload: on Ok the version character and the 12 checksum characters are stripped only after validation
-segwit_rec!(segwit_rec_l17, 17, 20, 23);
+//@ harness: segwit_feed_l13 class=B tier=quick bound="string el1 + 13 lower-case data characters (version + 12 checksum), all contents; check_characters by contract" props=C17,C06 timeout=900
+//@ clause: SegwitHrpstring::new: version > 16 => InvalidWitnessVersion; else the error is Checksum(InvalidChecksum) IFF the reference PolyMod over ExpandHRP ++ version char ++ checksum differs from 1 (version 0) resp. 0x455972a3350f7a1 (version 1..16) — the version character is inside the checksummed data and selects the variant
+segwit_feed!(segwit_feed_l13, 13, 16);
+//@ harness: segwit_feed_l17 class=B tier=quick bound="string el1 + 17 lower-case data characters (version, 4 payload, 12 checksum), all contents; check_characters by contract" props=C17,C06 timeout=900
+//@ clause: same with an acceptable payload: Ok => residue over ALL data characters equals the target of the version's variant; version character and 12 checksum characters are stripped only after validation
+segwit_feed!(segwit_feed_l17, 17, 20);
+//@ harness: segwit_feed_l21 class=B tier=thorough bound="string el1 + 21 lower-case data characters (version, 8 payload, 12 checksum), all contents; check_characters by contract" props=C17,C06 timeout=1800
+//@ clause: same, 8 payload characters (5 bytes)
+segwit_feed!(segwit_feed_l21, 21, 24);
